@@ -28,7 +28,7 @@ RULE = ("A history = a pool of inputs (2..4 diagrams held as float64 array (C-co
         "mGH pair and collection, both imagers incl. plots, exact / grid landscapes and their arithmetic, norms, tools, transformer, diagram / "
         "matching / landscape plots, kernels and weights). Every pooled input is snapshotted at creation (dtype, shape, bytes; deep copy for lists; "
         "data/indices/indptr for sparse) and compared after EVERY call; 'repeat' steps re-issue an earlier logged call after arbitrary other calls and "
-        "demand a bit-identical result; every call is also made on equal-valued inputs in the other accepted forms and results must agree.")
+        "demand a bit-identical result; 'rejected' steps call an entry point on INVALID input (NaN, wrong shape, a bar born after dying, None) and ignore the outcome, as a caller's try/except would - later repeats must still be bit-identical; every call is also made on equal-valued inputs in the other accepted forms and results must agree.")
 ASSUMPTIONS = [
     "accepted-forms table (from docstrings and observed behaviour): nested lists for bottleneck, wasserstein, heat, PersistenceImager, PersImage and "
     "PersLandscapeExact; integer and float arrays everywhere; a form a function does not accept is not generated for it",
@@ -354,6 +354,11 @@ ENTRIES = {
     "matching_plots": (e_matching_plots, ARR2), "kernels_weights": (e_kernels, ARR2),
 }
 GRAPH_ENTRIES = ["mgh_pair", "mgh_collection"]
+POISONABLE = ["bottleneck", "wasserstein", "heat", "sliced_wasserstein", "persistent_entropy", "imager_transform", "imager_fit", "exact_landscape",
+              "approx_landscape", "landscaper", "death_vector"]
+BAD_INPUTS = {"nan_birth": lambda: np.array([[float("nan") if i == 4 else float(i), float(i + 2)] for i in range(9)]),
+              "nan": lambda: np.array([[float(i), float("nan") if i == 3 else float(i + 2)] for i in range(9)]), "allnan": lambda: np.full((2, 2), float("nan")), "shape3": lambda: np.zeros((3,)),
+              "born_after_dying": lambda: np.array([[1.0, 0.0]]), "none": lambda: None, "three_columns_nan": lambda: np.array([[0.0, 1.0, float("nan")]])}
 
 OPTS = {
     "bottleneck": st.fixed_dictionaries({"matching": st.booleans()}), "wasserstein": st.fixed_dictionaries({"matching": st.booleans()}),
@@ -400,8 +405,13 @@ def pooled_diagram(draw):
 
 
 @st.composite
-def op(draw):
-    kind = draw(st.sampled_from(["call"] * 6 + ["repeat"] * 2 + ["graph"] + ["inf"] * 2))
+def op(draw, rejected_weight=1):
+    kind = draw(st.sampled_from(["call"] * 6 + ["repeat"] * 2 + ["graph"] + ["inf"] * 2 + ["rejected"] * rejected_weight))
+    if kind == "rejected":
+        # a call on INVALID input (NaN coordinates, wrong shape, a bar born after dying, None) whose outcome - an exception or a
+        # meaningless number - is ignored, as a caller's try/except would; what is checked is that it leaves nothing behind
+        return {"kind": "rejected", "fn": draw(st.sampled_from(POISONABLE)), "bad": draw(st.sampled_from(sorted(BAD_INPUTS) + ["nan_birth", "nan_birth"])), "pos": draw(st.integers(0, 1)),
+                "other": draw(st.integers(0, 3))}
     if kind == "inf":
         return {"kind": "inf", "fn": draw(st.sampled_from(sorted(INF_ENTRIES))), "opt": draw(INF_OPTS)}
     if kind == "repeat":
@@ -413,11 +423,11 @@ def op(draw):
 
 
 @st.composite
-def history(draw, max_ops=15):
+def history(draw, max_ops=15, rejected_weight=1):
     return {"dgms": [draw(pooled_diagram()) for _ in range(draw(st.integers(2, 4)))],
             "inf": {"pts": draw(pooled_diagram())["pts"], "n_inf": draw(st.integers(1, 2)), "form": draw(st.sampled_from(["float", "float32"]))},
             "graphs": [{"g": draw(G.connected_graph(2, 6)), "fmt": draw(st.sampled_from(G.FORMATS)), "sym": draw(st.booleans())} for _ in range(2)],
-            "ops": [draw(op()) for _ in range(draw(st.integers(3, max_ops)))]}
+            "ops": [draw(op(rejected_weight)) for _ in range(draw(st.integers(3, max_ops)))]}
 
 
 def run_history(case, ctx):
@@ -434,7 +444,7 @@ def run_history(case, ctx):
     gsnaps = [snapshot(x) for x in graphs]
     log = []           # (description, thunk, digest)
     used = set()
-    n_repeat = n_swap = 0
+    n_repeat = n_swap = n_rejected = 0
 
     def check_pool(step):
         for i, x in enumerate(pool):
@@ -477,6 +487,37 @@ def run_history(case, ctx):
             guarded(lambda: f(alt, opt))
             n_swap += 1
             ctx.require(snapshot(alt) == keep, "argument_modified", lambda: "%s modified its %s argument (diagram with infinite deaths)" % (o["fn"], other_form))
+            continue
+        if o["kind"] == "rejected":
+            fnr, _acc = ENTRIES[o["fn"]]
+            if "nan" in o["bad"] and o["fn"] in ("exact_landscape", "approx_landscape", "landscaper", "death_vector"):
+                # the landscape sweep does not terminate on NaN coordinates; that is invalid input (outside every property), and a
+                # caller cannot catch a hang, so this combination is not part of the sequence space
+                continue
+            bad = BAD_INPUTS[o["bad"]]()
+            good = pool[o["other"] % len(pool)]
+            args = [bad, good] if o["pos"] == 0 else [good, bad]
+            optr = fix_opts(o["fn"], {"single": o["pos"] == 0, "weight": "persistence", "kernel": "gaussian", "matching": True})
+            # sandwich: a valid call of the same entry point before and after the rejected one must give bit-identical results
+            va, vb = pool[(o["other"] + 1) % len(pool)], good
+            fva = forms[(o["other"] + 1) % len(pool)] if forms[(o["other"] + 1) % len(pool)] in _acc else None
+            fvb = forms[o["other"] % len(pool)] if forms[o["other"] % len(pool)] in _acc else None
+            valid = None
+            if fva and fvb:
+                optv = fix_opts(o["fn"], {"single": False, "weight": "persistence", "kernel": "gaussian", "matching": True})
+                valid = lambda: fnr([va, vb], optv)
+                before = digest(guarded(valid))
+            try:
+                guarded(lambda: fnr(args, optr))
+            except Violation:
+                pass            # the outcome of a call on invalid input is not judged
+            n_rejected += 1
+            check_pool("a rejected call %s(%s)" % (o["fn"], o["bad"]))
+            if valid is not None:
+                after = digest(guarded(valid))
+                ctx.require(after == before, "not_repeatable",
+                            lambda: "op %d: %s on two pooled diagrams gives a different result after an intervening call of the same function on invalid input (%s) "
+                                    "whose exception the caller caught" % (n, o["fn"], o["bad"]))
             continue
         if o["kind"] == "graph":
             seed = o["seed"]
@@ -538,7 +579,7 @@ def run_history(case, ctx):
             ctx.require(ok, "representation_dependent",
                         lambda: "%s: result for %s-form inputs differs from %s/%s-form inputs (%d vs %d numbers; first difference %s)"
                         % (o["fn"], form, fa, fb, len(other), len(base), next(((u, v) for u, v in zip(base, other) if not close(u, v, max(1.0, abs(u)), rel=rel)), None)))
-    ctx.label("entry_points=%d" % min(len(used), 8), *("fn:" + u for u in sorted(used)))
+    ctx.label("entry_points=%d" % min(len(used), 8), "with_rejected_call" if n_rejected else None, *("fn:" + u for u in sorted(used)))
     ctx.nontrivial(len(case["ops"]) >= 6 and len(used) >= 4 and n_repeat >= 1 and n_swap >= 1)
 
 
@@ -558,6 +599,8 @@ def VALID_DEFAULT(case):
         for o in case["ops"]:
             if o["kind"] == "call" and o["fn"] not in ENTRIES:
                 return False
+            if o["kind"] == "rejected" and (o["fn"] not in POISONABLE or o["bad"] not in BAD_INPUTS or o["pos"] not in (0, 1)):
+                return False
         i = case["inf"]
         if len(i["pts"]) < 2 or i["n_inf"] < 1 or any(len(p) != 2 or not p[1] > p[0] for p in i["pts"]) or i["form"] not in ("float", "float32"):
             return False
@@ -570,6 +613,8 @@ CLAUSES = [
     Clause("history", history(15), run_history, quick=640, thorough=8000,
            rule="3..15 steps over 19 diagram entry points, 6 entry points fed the diagram with infinite deaths, + 2 graph entry points; non-trivial = >= 6 steps, >= 4 distinct entry points, at least "
                 "one repeat and one representation swap"),
+    Clause("rejected_calls", history(8, rejected_weight=12), run_history, quick=960, thorough=12000,
+           rule="as history with 3..8 steps of which about half are calls on INVALID input sandwiched between two identical valid calls of the same entry point"),
     Clause("long_history", history(40), run_history, quick=64, thorough=1600,
            rule="as history with up to 40 steps"),
 ]
